@@ -18,9 +18,7 @@ import IbicusModel.Lemmas.GenGridLoops
 #print axioms Props.C13.no_failsafe_no_array_chunked
 #print axioms Props.C13.dispatch_forwards_failsafe
 #print axioms Props.C13.catch_wrapper_statements
--- tier A: dispatch table and map-function statements regenerated from the source = model
-#print axioms Lemmas.GenGridDispatch.paths
-#print axioms Lemmas.GenGridDispatch.facts
+#print axioms Props.C13.catch_wrapper_denotes
 -- tier A, semantic: structure of the catch wrapper / map functions / apply regenerated from the source = expected spec,
 -- and denotation of the expected spec = the functions of Model/Grid.lean the theorems above are stated on
 #print axioms Lemmas.GenGridLoops.catchSpec
